@@ -518,19 +518,38 @@ def _w6(ctx, rep):
         m = rc.methods[nm]
         calls = [n for n in own_nodes(m.node) if isinstance(n, ast.Call) and "relative_entropy" in (dotted(n.func) or "")]
         forms = set()
-        for cl in calls:
-            par = getattr(cl, "_parent", None)
-            w = unparse(par.left) if isinstance(par, ast.BinOp) and isinstance(par.op, ast.Mult) and par.right is cl else \
-                (unparse(par.right) if isinstance(par, ast.BinOp) and isinstance(par.op, ast.Mult) and par.left is cl else "1")
-            forms.add((w, tuple(unparse(a) for a in cl.args[:2])))
+        # the loop index over the schedules, whatever it is called
+        idx = None
+        for lp in own_nodes(m.node):
+            if isinstance(lp, ast.For) and isinstance(lp.target, ast.Name) and any(cl is x for cl in calls for x in ast.walk(lp)):
+                idx = lp.target.id
         defs = {}
         for n in own_nodes(m.node):
             if isinstance(n, ast.Assign) and len(n.targets) == 1 and isinstance(n.targets[0], ast.Name):
-                defs[n.targets[0].id] = unparse(n.value)
-        sig[nm] = (frozenset(forms), defs.get("q"), defs.get("p"))
-    want_forms = frozenset({("self.weights[index]", ("q", "p")), ("1", ("q", "p"))})
+                defs.setdefault(n.targets[0].id, []).append(n.value)
+        one = {k: v[0] for k, v in defs.items() if len(v) == 1}
+
+        def norm(e):
+            """text of e with once-bound locals replaced by their definitions and the loop index written as `index`"""
+            from ..symsum import subst
+            x = e
+            for _ in range(4):
+                x = subst(x, one)
+            if idx:
+                x = subst(x, {idx: ast.Name(id="index", ctx=ast.Load())})
+            return unparse(x)
+        for cl in calls:
+            par = getattr(cl, "_parent", None)
+            w = norm(par.left) if isinstance(par, ast.BinOp) and isinstance(par.op, ast.Mult) and par.right is cl else \
+                (norm(par.right) if isinstance(par, ast.BinOp) and isinstance(par.op, ast.Mult) and par.left is cl else "1")
+            forms.add((w, tuple(norm(a) for a in cl.args[:2])))
+        sig[nm] = (frozenset(forms), None, None)
+    DATA, MODEL_ = "self.prob_dists_q[index]", "self.func_prob_dists[index](var)"
+    want_forms = frozenset({("self.weights[index]", (DATA, MODEL_)), ("1", (DATA, MODEL_))})
     for nm, (forms, q, p) in sig.items():
-        ok = forms == want_forms and q == "self.prob_dists_q[index]" and p == "self.func_prob_dists[index](var)"
+        ok = forms == want_forms
+        q = sorted({f_[1][0] for f_ in forms})
+        p = sorted({f_[1][1] for f_ in forms if len(f_[1]) > 1})
         rep.check(ok, "W6", rc.methods[nm], "relative entropy %s" % nm, "w_i * f(q_i, p_i(x))",
                   "%s uses %s with q=%s, p=%s; expected weights[index] * f(q, p) with q = data, p = model" % (nm, sorted(forms), q, p), node=rc.methods[nm].node)
 
